@@ -101,6 +101,7 @@ type FnCtx struct {
 	rangeKeys       map[int]string    // loop ordinal -> name of the key variable of a range loop (recorded for claims/rangekeys.json)
 	baseRangeKey    map[int]string    // the same, as recorded when the contracts were written
 	curLocals       map[string]bool   // names of the function's locals
+	loopRemap       map[int]int       // current loop ordinal -> recorded ordinal (locals.go)
 	pureDepth       int               // nesting of callee-body scans in callIsPure
 	callHeapKeys    map[string]bool
 	deps            map[string]bool
